@@ -632,6 +632,19 @@ def run(chk):
             {"files": [F([], [17, 17])], "sels": [".a style = .s | eval(.e)"], "mode": "e", "flags": dict(NF)},
             {"files": [F([], [17]), F([], [17])], "sels": [".a tag |= \"!!\" + . | .c = \"\\(.b tag = .g | .b)\""], "mode": "e", "flags": dict(NF)},
         ]
+        # directed family (seed-independent): a later file / document whose leading content starts with `---` (the printer
+        # prints no separator of its own there) and an expression with the document root first and further results after it
+        root_first = [[".", "keys"], [".", "length"], [".", "tag"], [".", ".a"], ["select(.a == 1)", ".b"], [".", "keys", "length"]]
+        layouts = [
+            [F([], [1]), F([S], [1])], [F([], [5]), F([S], [1, 5])], [F([], [1]), F([S, "# c2\n"], [5])],
+            [F([], []), F([], [1]), F([S], [8])], [F(["# c1\n"], [1, 5]), F([], [8]), F([S], [1])],
+            [F([S], [1]), F([S], [5]), F([S], [8])], [F([], [8]), F(["# c1\n", S], [1])],
+        ]
+        for sels_ in root_first:
+            for lay in layouts:
+                for fl_ in (dict(NF), {"N": False, "json": False, "nul": True}):
+                    fixed.append({"files": [dict(f, lead=list(f["lead"]), bodies=list(f["bodies"])) for f in lay],
+                                  "sels": list(sels_), "mode": "e", "flags": fl_})
         cases += fixed
         while len(cases) < ncases:
             cases.append(gen_case(rng, maxfiles, maxdocs))
@@ -798,7 +811,7 @@ def run(chk):
         rule="sequences of 1..%d files x 0..%d documents (empty files, comment-only files, leading `---`, comments before/after it, blank lines, "
              "head-commented later documents, files with a YAML error after their documents) x %d expressions (unions of %d document-local selectors "
              "with 0/1/2/n results per document, results below the root / replacing the root, index operators, document-local errors) x {eval, eval-all} "
-             "x {-N, -o=json, -0}; 12 fixed corner cases first. Non-trivial: at least two documents or two files; distinct by the whole case."
+             "x {-N, -o=json, -0}; fixed corner cases and a directed family (leading `---` in later files x root-first multi-result expressions) first. Non-trivial: at least two documents or two files; distinct by the whole case."
              % (maxfiles, maxdocs, len(EXPRS), len(SEL)),
         trusted=vlib.COMMON_TRUSTED + [
             "per-document result lists fed to the model are measured on the binary on single documents (yq -0 selector doc); the check only supplies, per selector, whether results stay below the document root and whether they carry the root's leading content",
